@@ -94,6 +94,11 @@ class Ctx:
 
     # ------------------------------------------------------------------ finish
     def finish(self):
+        try:
+            from . import selfcheck
+            self.extra["engine_positive_controls"] = selfcheck.run()
+        except AnalysisBroken as e:
+            self.broken.append(str(e))
         for m in facts.BROKEN_NOTES:
             if m not in self.broken:
                 self.broken.append(m)
